@@ -5,8 +5,15 @@
 //! Two postconditions per obligation:
 //!  (C01) the reference result.  Result type = the wider operand type (INTEGER < LONG < SINGLE < DOUBLE).
 //!        Whole-number result types: the mathematical result when it fits the type.  SINGLE/DOUBLE: the IEEE-754
-//!        operation in that format on the operands converted to it.  `/`: the IEEE quotient (SINGLE format unless
-//!        an operand is DOUBLE), zero divisor -> Division by zero.  MOD: operands rounded to nearest, both must
+//!        operation in that format on the operands converted to it.  `/`: floating-point division -- the IEEE quotient
+//!        in the format both operands convert to exactly (INTEGER -> SINGLE, LONG -> DOUBLE, the wider of the two), a
+//!        divisor that is exactly zero -> Division by zero, a quotient that is not finite -> Overflow.  The VM and the
+//!        constant folder divide through `rusty_linter::core::qb_divide` (units qb_divide, type_table), which converts BOTH
+//!        operands to the type of the quotient first, so they reach `Variant::divide` on SINGLE x SINGLE and
+//!        DOUBLE x DOUBLE only; the mixed pairs are kept under contract as the public API.  For LONG x SINGLE and
+//!        SINGLE x LONG that API divides in SINGLE format (the repository's unit tests divide::long::test_single and
+//!        divide::single::test_long demand a SINGLE result there): the reference of these two pairs says so.
+//!        MOD: operands rounded to nearest, both must
 //!        fit INTEGER, remainder with the sign of the dividend.  Comparisons: the order on the exact values, for
 //!        floats inside the domain `x = y or |x - y| >= 2e-5` (there the deliberate 1e-5 fuzz of `ApproximateCmp`
 //!        cannot matter) and, when a LONG meets a SINGLE, |long| <= 2^24 (exactly representable).
@@ -17,6 +24,10 @@
 //!  F26 `/` snaps quotients within 1e-4 of a whole number and saturates whole quotients >= 2^63
 //!  F17 `/` reports Division by zero for 0 < |divisor| < 1e-5   F18 MOD gives TypeMismatch for |operand| >= 2^31
 //!  F19 `/` converts LONG operands to SINGLE (loses precision beyond 2^24)   F20 a - b computed as -(b - a) gives -0
+//! (The main `divide_*` harnesses are thorough-tier attempts -- two copies of a float divider.  Therefore the reproduction
+//!  harnesses of F26 and F19 are `standalone=1`: once the finding is repaired they stay as ordinary quick-tier obligations;
+//!  the clause F17 broke -- Division by zero exactly for a divisor that is exactly zero -- is asserted over the whole
+//!  domain by the quick `divide_*_valid` harnesses.)
 //! Loop-free except AND/OR (16-iteration loops unwound 18): complete.
 
 const IMIN: i64 = -32768;
@@ -1724,8 +1735,10 @@ harness!(divide_integer_integer, 1, {
     let x = a as f32;
     let y = b as f32;
     let q = if b == 0 { 0.0 } else { x / y }; // IEEE-754 quotient
-    vs::assume(q.is_finite()); // a non-finite quotient: finding F26
-    let d = (q - q.round()).abs();
+    if KF_F26 {
+        vs::assume(q.is_finite()); // a non-finite quotient: finding F26
+    }
+    let d = if q.is_finite() { (q - q.round()).abs() } else { 1.0 }; // distance to the nearest whole number (used by the F26 carve-out only)
     if KF_F26 {
         vs::assume(b == 0 || d > 0.0001 || (d == 0.0 && q.abs() < 9.2e18));
     }
@@ -1747,7 +1760,7 @@ harness!(divide_integer_integer, 1, {
     std::mem::forget(r);
 });
 
-//# harness divide_integer_integer_valid tier=quick label=complete props=C06 fn=rusty_variant/src/variant.rs::Variant::divide
+//# harness divide_integer_integer_valid tier=quick label=complete props=C01,C06 fn=rusty_variant/src/variant.rs::Variant::divide
 harness!(divide_integer_integer_valid, 1, {
     let a = vs::i32();
     vs::assume(a >= -32768 && a <= 32767);
@@ -1755,6 +1768,7 @@ harness!(divide_integer_integer_valid, 1, {
     vs::assume(b >= -32768 && b <= 32767);
     let r = Variant::VInteger(a).divide(Variant::VInteger(b));
     c06(&r);
+    assert!(is_dz(&r) == (b == 0), "C01: Division by zero exactly when the divisor is exactly zero");
     reach!(matches!(&r, Ok(Variant::VInteger(_))));
     reach!(matches!(&r, Ok(Variant::VSingle(_)) | Ok(Variant::VDouble(_))));
     reach!(is_dz(&r));
@@ -1767,11 +1781,13 @@ harness!(divide_integer_long, 1, {
     vs::assume(a >= -32768 && a <= 32767);
     let b = vs::i64();
     vs::assume(b >= -2147483648 && b <= 2147483647);
-    let x = a as f32;
-    let y = b as f32;
+    let x = a as f64;
+    let y = b as f64;
     let q = if b == 0 { 0.0 } else { x / y }; // IEEE-754 quotient
-    vs::assume(q.is_finite()); // a non-finite quotient: finding F26
-    let d = (q - q.round()).abs();
+    if KF_F26 {
+        vs::assume(q.is_finite()); // a non-finite quotient: finding F26
+    }
+    let d = if q.is_finite() { (q - q.round()).abs() } else { 1.0 }; // distance to the nearest whole number (used by the F26 carve-out only)
     if KF_F19 {
         vs::assume(b >= -TWO24 && b <= TWO24);
     }
@@ -1796,7 +1812,7 @@ harness!(divide_integer_long, 1, {
     std::mem::forget(r);
 });
 
-//# harness divide_integer_long_valid tier=quick label=complete props=C06 fn=rusty_variant/src/variant.rs::Variant::divide
+//# harness divide_integer_long_valid tier=quick label=complete props=C01,C06 fn=rusty_variant/src/variant.rs::Variant::divide
 harness!(divide_integer_long_valid, 1, {
     let a = vs::i32();
     vs::assume(a >= -32768 && a <= 32767);
@@ -1804,6 +1820,7 @@ harness!(divide_integer_long_valid, 1, {
     vs::assume(b >= -2147483648 && b <= 2147483647);
     let r = Variant::VInteger(a).divide(Variant::VLong(b));
     c06(&r);
+    assert!(is_dz(&r) == (b == 0), "C01: Division by zero exactly when the divisor is exactly zero");
     reach!(matches!(&r, Ok(Variant::VInteger(_))));
     reach!(matches!(&r, Ok(Variant::VSingle(_)) | Ok(Variant::VDouble(_))));
     reach!(is_dz(&r));
@@ -1819,8 +1836,10 @@ harness!(divide_integer_single, 1, {
     let x = a as f32;
     let y = b as f32;
     let q = if b == 0.0 { 0.0 } else { x / y }; // IEEE-754 quotient
-    vs::assume(q.is_finite()); // a non-finite quotient: finding F26
-    let d = (q - q.round()).abs();
+    if KF_F26 {
+        vs::assume(q.is_finite()); // a non-finite quotient: finding F26
+    }
+    let d = if q.is_finite() { (q - q.round()).abs() } else { 1.0 }; // distance to the nearest whole number (used by the F26 carve-out only)
     if KF_F17 {
         vs::assume(b == 0.0 || b.abs() >= 0.00001);
     }
@@ -1845,14 +1864,18 @@ harness!(divide_integer_single, 1, {
     std::mem::forget(r);
 });
 
-//# harness divide_integer_single_valid tier=quick label=complete props=C06 fn=rusty_variant/src/variant.rs::Variant::divide
+//# harness divide_integer_single_valid tier=quick label=complete props=C01,C06 fn=rusty_variant/src/variant.rs::Variant::divide
 harness!(divide_integer_single_valid, 1, {
     let a = vs::i32();
     vs::assume(a >= -32768 && a <= 32767);
     let b = vs::f32();
     vs::assume(b.is_finite());
+    if KF_F17 {
+        vs::assume(b == 0.0 || b.abs() >= 0.00001);
+    }
     let r = Variant::VInteger(a).divide(Variant::VSingle(b));
     c06(&r);
+    assert!(is_dz(&r) == (b == 0.0), "C01: Division by zero exactly when the divisor is exactly zero");
     reach!(matches!(&r, Ok(Variant::VInteger(_))));
     reach!(matches!(&r, Ok(Variant::VSingle(_)) | Ok(Variant::VDouble(_))));
     reach!(is_dz(&r));
@@ -1868,8 +1891,10 @@ harness!(divide_integer_double, 1, {
     let x = a as f64;
     let y = b as f64;
     let q = if b == 0.0 { 0.0 } else { x / y }; // IEEE-754 quotient
-    vs::assume(q.is_finite()); // a non-finite quotient: finding F26
-    let d = (q - q.round()).abs();
+    if KF_F26 {
+        vs::assume(q.is_finite()); // a non-finite quotient: finding F26
+    }
+    let d = if q.is_finite() { (q - q.round()).abs() } else { 1.0 }; // distance to the nearest whole number (used by the F26 carve-out only)
     if KF_F17 {
         vs::assume(b == 0.0 || b.abs() >= 0.00001);
     }
@@ -1894,14 +1919,18 @@ harness!(divide_integer_double, 1, {
     std::mem::forget(r);
 });
 
-//# harness divide_integer_double_valid tier=quick label=complete props=C06 fn=rusty_variant/src/variant.rs::Variant::divide
+//# harness divide_integer_double_valid tier=quick label=complete props=C01,C06 fn=rusty_variant/src/variant.rs::Variant::divide
 harness!(divide_integer_double_valid, 1, {
     let a = vs::i32();
     vs::assume(a >= -32768 && a <= 32767);
     let b = vs::f64();
     vs::assume(b.is_finite());
+    if KF_F17 {
+        vs::assume(b == 0.0 || b.abs() >= 0.00001);
+    }
     let r = Variant::VInteger(a).divide(Variant::VDouble(b));
     c06(&r);
+    assert!(is_dz(&r) == (b == 0.0), "C01: Division by zero exactly when the divisor is exactly zero");
     reach!(matches!(&r, Ok(Variant::VInteger(_))));
     reach!(matches!(&r, Ok(Variant::VSingle(_)) | Ok(Variant::VDouble(_))));
     reach!(is_dz(&r));
@@ -1914,11 +1943,13 @@ harness!(divide_long_integer, 1, {
     vs::assume(a >= -2147483648 && a <= 2147483647);
     let b = vs::i32();
     vs::assume(b >= -32768 && b <= 32767);
-    let x = a as f32;
-    let y = b as f32;
+    let x = a as f64;
+    let y = b as f64;
     let q = if b == 0 { 0.0 } else { x / y }; // IEEE-754 quotient
-    vs::assume(q.is_finite()); // a non-finite quotient: finding F26
-    let d = (q - q.round()).abs();
+    if KF_F26 {
+        vs::assume(q.is_finite()); // a non-finite quotient: finding F26
+    }
+    let d = if q.is_finite() { (q - q.round()).abs() } else { 1.0 }; // distance to the nearest whole number (used by the F26 carve-out only)
     if KF_F19 {
         vs::assume(a >= -TWO24 && a <= TWO24);
     }
@@ -1943,7 +1974,7 @@ harness!(divide_long_integer, 1, {
     std::mem::forget(r);
 });
 
-//# harness divide_long_integer_valid tier=quick label=complete props=C06 fn=rusty_variant/src/variant.rs::Variant::divide
+//# harness divide_long_integer_valid tier=quick label=complete props=C01,C06 fn=rusty_variant/src/variant.rs::Variant::divide
 harness!(divide_long_integer_valid, 1, {
     let a = vs::i64();
     vs::assume(a >= -2147483648 && a <= 2147483647);
@@ -1951,6 +1982,7 @@ harness!(divide_long_integer_valid, 1, {
     vs::assume(b >= -32768 && b <= 32767);
     let r = Variant::VLong(a).divide(Variant::VInteger(b));
     c06(&r);
+    assert!(is_dz(&r) == (b == 0), "C01: Division by zero exactly when the divisor is exactly zero");
     reach!(matches!(&r, Ok(Variant::VInteger(_))));
     reach!(matches!(&r, Ok(Variant::VSingle(_)) | Ok(Variant::VDouble(_))));
     reach!(is_dz(&r));
@@ -1963,11 +1995,13 @@ harness!(divide_long_long, 1, {
     vs::assume(a >= -2147483648 && a <= 2147483647);
     let b = vs::i64();
     vs::assume(b >= -2147483648 && b <= 2147483647);
-    let x = a as f32;
-    let y = b as f32;
+    let x = a as f64;
+    let y = b as f64;
     let q = if b == 0 { 0.0 } else { x / y }; // IEEE-754 quotient
-    vs::assume(q.is_finite()); // a non-finite quotient: finding F26
-    let d = (q - q.round()).abs();
+    if KF_F26 {
+        vs::assume(q.is_finite()); // a non-finite quotient: finding F26
+    }
+    let d = if q.is_finite() { (q - q.round()).abs() } else { 1.0 }; // distance to the nearest whole number (used by the F26 carve-out only)
     if KF_F19 {
         vs::assume(a >= -TWO24 && a <= TWO24 && b >= -TWO24 && b <= TWO24);
     }
@@ -1992,7 +2026,7 @@ harness!(divide_long_long, 1, {
     std::mem::forget(r);
 });
 
-//# harness divide_long_long_valid tier=quick label=complete props=C06 fn=rusty_variant/src/variant.rs::Variant::divide
+//# harness divide_long_long_valid tier=quick label=complete props=C01,C06 fn=rusty_variant/src/variant.rs::Variant::divide
 harness!(divide_long_long_valid, 1, {
     let a = vs::i64();
     vs::assume(a >= -2147483648 && a <= 2147483647);
@@ -2000,6 +2034,7 @@ harness!(divide_long_long_valid, 1, {
     vs::assume(b >= -2147483648 && b <= 2147483647);
     let r = Variant::VLong(a).divide(Variant::VLong(b));
     c06(&r);
+    assert!(is_dz(&r) == (b == 0), "C01: Division by zero exactly when the divisor is exactly zero");
     reach!(matches!(&r, Ok(Variant::VInteger(_))));
     reach!(matches!(&r, Ok(Variant::VSingle(_)) | Ok(Variant::VDouble(_))));
     reach!(is_dz(&r));
@@ -2015,8 +2050,10 @@ harness!(divide_long_single, 1, {
     let x = a as f32;
     let y = b as f32;
     let q = if b == 0.0 { 0.0 } else { x / y }; // IEEE-754 quotient
-    vs::assume(q.is_finite()); // a non-finite quotient: finding F26
-    let d = (q - q.round()).abs();
+    if KF_F26 {
+        vs::assume(q.is_finite()); // a non-finite quotient: finding F26
+    }
+    let d = if q.is_finite() { (q - q.round()).abs() } else { 1.0 }; // distance to the nearest whole number (used by the F26 carve-out only)
     if KF_F19 {
         vs::assume(a >= -TWO24 && a <= TWO24);
     }
@@ -2044,14 +2081,18 @@ harness!(divide_long_single, 1, {
     std::mem::forget(r);
 });
 
-//# harness divide_long_single_valid tier=quick label=complete props=C06 fn=rusty_variant/src/variant.rs::Variant::divide
+//# harness divide_long_single_valid tier=quick label=complete props=C01,C06 fn=rusty_variant/src/variant.rs::Variant::divide
 harness!(divide_long_single_valid, 1, {
     let a = vs::i64();
     vs::assume(a >= -2147483648 && a <= 2147483647);
     let b = vs::f32();
     vs::assume(b.is_finite());
+    if KF_F17 {
+        vs::assume(b == 0.0 || b.abs() >= 0.00001);
+    }
     let r = Variant::VLong(a).divide(Variant::VSingle(b));
     c06(&r);
+    assert!(is_dz(&r) == (b == 0.0), "C01: Division by zero exactly when the divisor is exactly zero");
     reach!(matches!(&r, Ok(Variant::VInteger(_))));
     reach!(matches!(&r, Ok(Variant::VSingle(_)) | Ok(Variant::VDouble(_))));
     reach!(is_dz(&r));
@@ -2067,8 +2108,10 @@ harness!(divide_long_double, 1, {
     let x = a as f64;
     let y = b as f64;
     let q = if b == 0.0 { 0.0 } else { x / y }; // IEEE-754 quotient
-    vs::assume(q.is_finite()); // a non-finite quotient: finding F26
-    let d = (q - q.round()).abs();
+    if KF_F26 {
+        vs::assume(q.is_finite()); // a non-finite quotient: finding F26
+    }
+    let d = if q.is_finite() { (q - q.round()).abs() } else { 1.0 }; // distance to the nearest whole number (used by the F26 carve-out only)
     if KF_F17 {
         vs::assume(b == 0.0 || b.abs() >= 0.00001);
     }
@@ -2093,14 +2136,18 @@ harness!(divide_long_double, 1, {
     std::mem::forget(r);
 });
 
-//# harness divide_long_double_valid tier=quick label=complete props=C06 fn=rusty_variant/src/variant.rs::Variant::divide
+//# harness divide_long_double_valid tier=quick label=complete props=C01,C06 fn=rusty_variant/src/variant.rs::Variant::divide
 harness!(divide_long_double_valid, 1, {
     let a = vs::i64();
     vs::assume(a >= -2147483648 && a <= 2147483647);
     let b = vs::f64();
     vs::assume(b.is_finite());
+    if KF_F17 {
+        vs::assume(b == 0.0 || b.abs() >= 0.00001);
+    }
     let r = Variant::VLong(a).divide(Variant::VDouble(b));
     c06(&r);
+    assert!(is_dz(&r) == (b == 0.0), "C01: Division by zero exactly when the divisor is exactly zero");
     reach!(matches!(&r, Ok(Variant::VInteger(_))));
     reach!(matches!(&r, Ok(Variant::VSingle(_)) | Ok(Variant::VDouble(_))));
     reach!(is_dz(&r));
@@ -2116,8 +2163,10 @@ harness!(divide_single_integer, 1, {
     let x = a as f32;
     let y = b as f32;
     let q = if b == 0 { 0.0 } else { x / y }; // IEEE-754 quotient
-    vs::assume(q.is_finite()); // a non-finite quotient: finding F26
-    let d = (q - q.round()).abs();
+    if KF_F26 {
+        vs::assume(q.is_finite()); // a non-finite quotient: finding F26
+    }
+    let d = if q.is_finite() { (q - q.round()).abs() } else { 1.0 }; // distance to the nearest whole number (used by the F26 carve-out only)
     if KF_F26 {
         vs::assume(b == 0 || d > 0.0001 || (d == 0.0 && q.abs() < 9.2e18));
     }
@@ -2139,7 +2188,7 @@ harness!(divide_single_integer, 1, {
     std::mem::forget(r);
 });
 
-//# harness divide_single_integer_valid tier=quick label=complete props=C06 fn=rusty_variant/src/variant.rs::Variant::divide
+//# harness divide_single_integer_valid tier=quick label=complete props=C01,C06 fn=rusty_variant/src/variant.rs::Variant::divide
 harness!(divide_single_integer_valid, 1, {
     let a = vs::f32();
     vs::assume(a.is_finite());
@@ -2147,6 +2196,7 @@ harness!(divide_single_integer_valid, 1, {
     vs::assume(b >= -32768 && b <= 32767);
     let r = Variant::VSingle(a).divide(Variant::VInteger(b));
     c06(&r);
+    assert!(is_dz(&r) == (b == 0), "C01: Division by zero exactly when the divisor is exactly zero");
     reach!(matches!(&r, Ok(Variant::VInteger(_))));
     reach!(matches!(&r, Ok(Variant::VSingle(_)) | Ok(Variant::VDouble(_))));
     reach!(is_dz(&r));
@@ -2162,8 +2212,10 @@ harness!(divide_single_long, 1, {
     let x = a as f32;
     let y = b as f32;
     let q = if b == 0 { 0.0 } else { x / y }; // IEEE-754 quotient
-    vs::assume(q.is_finite()); // a non-finite quotient: finding F26
-    let d = (q - q.round()).abs();
+    if KF_F26 {
+        vs::assume(q.is_finite()); // a non-finite quotient: finding F26
+    }
+    let d = if q.is_finite() { (q - q.round()).abs() } else { 1.0 }; // distance to the nearest whole number (used by the F26 carve-out only)
     if KF_F19 {
         vs::assume(b >= -TWO24 && b <= TWO24);
     }
@@ -2188,7 +2240,7 @@ harness!(divide_single_long, 1, {
     std::mem::forget(r);
 });
 
-//# harness divide_single_long_valid tier=quick label=complete props=C06 fn=rusty_variant/src/variant.rs::Variant::divide
+//# harness divide_single_long_valid tier=quick label=complete props=C01,C06 fn=rusty_variant/src/variant.rs::Variant::divide
 harness!(divide_single_long_valid, 1, {
     let a = vs::f32();
     vs::assume(a.is_finite());
@@ -2196,6 +2248,7 @@ harness!(divide_single_long_valid, 1, {
     vs::assume(b >= -2147483648 && b <= 2147483647);
     let r = Variant::VSingle(a).divide(Variant::VLong(b));
     c06(&r);
+    assert!(is_dz(&r) == (b == 0), "C01: Division by zero exactly when the divisor is exactly zero");
     reach!(matches!(&r, Ok(Variant::VInteger(_))));
     reach!(matches!(&r, Ok(Variant::VSingle(_)) | Ok(Variant::VDouble(_))));
     reach!(is_dz(&r));
@@ -2211,8 +2264,10 @@ harness!(divide_single_single, 1, {
     let x = a as f32;
     let y = b as f32;
     let q = if b == 0.0 { 0.0 } else { x / y }; // IEEE-754 quotient
-    vs::assume(q.is_finite()); // a non-finite quotient: finding F26
-    let d = (q - q.round()).abs();
+    if KF_F26 {
+        vs::assume(q.is_finite()); // a non-finite quotient: finding F26
+    }
+    let d = if q.is_finite() { (q - q.round()).abs() } else { 1.0 }; // distance to the nearest whole number (used by the F26 carve-out only)
     if KF_F17 {
         vs::assume(b == 0.0 || b.abs() >= 0.00001);
     }
@@ -2237,15 +2292,21 @@ harness!(divide_single_single, 1, {
     std::mem::forget(r);
 });
 
-//# harness divide_single_single_valid tier=quick label=complete props=C06 fn=rusty_variant/src/variant.rs::Variant::divide
+//# harness divide_single_single_valid tier=quick label=complete props=C01,C06 fn=rusty_variant/src/variant.rs::Variant::divide
 harness!(divide_single_single_valid, 1, {
     let a = vs::f32();
     vs::assume(a.is_finite());
     let b = vs::f32();
     vs::assume(b.is_finite());
-    vs::assume((a as f64).abs() <= 3.0e33); // |divisor| >= 1e-5 whenever a division happens, so the quotient is finite (beyond: F26)
+    if KF_F26 {
+        vs::assume((a as f64).abs() <= 3.0e33); // |divisor| >= 1e-5 whenever a division happens, so the quotient is finite (beyond: F26)
+    }
+    if KF_F17 {
+        vs::assume(b == 0.0 || b.abs() >= 0.00001);
+    }
     let r = Variant::VSingle(a).divide(Variant::VSingle(b));
     c06(&r);
+    assert!(is_dz(&r) == (b == 0.0), "C01: Division by zero exactly when the divisor is exactly zero");
     reach!(matches!(&r, Ok(Variant::VInteger(_))));
     reach!(matches!(&r, Ok(Variant::VSingle(_)) | Ok(Variant::VDouble(_))));
     reach!(is_dz(&r));
@@ -2261,8 +2322,10 @@ harness!(divide_single_double, 1, {
     let x = a as f64;
     let y = b as f64;
     let q = if b == 0.0 { 0.0 } else { x / y }; // IEEE-754 quotient
-    vs::assume(q.is_finite()); // a non-finite quotient: finding F26
-    let d = (q - q.round()).abs();
+    if KF_F26 {
+        vs::assume(q.is_finite()); // a non-finite quotient: finding F26
+    }
+    let d = if q.is_finite() { (q - q.round()).abs() } else { 1.0 }; // distance to the nearest whole number (used by the F26 carve-out only)
     if KF_F17 {
         vs::assume(b == 0.0 || b.abs() >= 0.00001);
     }
@@ -2287,15 +2350,21 @@ harness!(divide_single_double, 1, {
     std::mem::forget(r);
 });
 
-//# harness divide_single_double_valid tier=quick label=complete props=C06 fn=rusty_variant/src/variant.rs::Variant::divide
+//# harness divide_single_double_valid tier=quick label=complete props=C01,C06 fn=rusty_variant/src/variant.rs::Variant::divide
 harness!(divide_single_double_valid, 1, {
     let a = vs::f32();
     vs::assume(a.is_finite());
     let b = vs::f64();
     vs::assume(b.is_finite());
-    vs::assume((a as f64).abs() <= 1.0e303); // |divisor| >= 1e-5 whenever a division happens, so the quotient is finite (beyond: F26)
+    if KF_F26 {
+        vs::assume((a as f64).abs() <= 1.0e303); // |divisor| >= 1e-5 whenever a division happens, so the quotient is finite (beyond: F26)
+    }
+    if KF_F17 {
+        vs::assume(b == 0.0 || b.abs() >= 0.00001);
+    }
     let r = Variant::VSingle(a).divide(Variant::VDouble(b));
     c06(&r);
+    assert!(is_dz(&r) == (b == 0.0), "C01: Division by zero exactly when the divisor is exactly zero");
     reach!(matches!(&r, Ok(Variant::VInteger(_))));
     reach!(matches!(&r, Ok(Variant::VSingle(_)) | Ok(Variant::VDouble(_))));
     reach!(is_dz(&r));
@@ -2311,8 +2380,10 @@ harness!(divide_double_integer, 1, {
     let x = a as f64;
     let y = b as f64;
     let q = if b == 0 { 0.0 } else { x / y }; // IEEE-754 quotient
-    vs::assume(q.is_finite()); // a non-finite quotient: finding F26
-    let d = (q - q.round()).abs();
+    if KF_F26 {
+        vs::assume(q.is_finite()); // a non-finite quotient: finding F26
+    }
+    let d = if q.is_finite() { (q - q.round()).abs() } else { 1.0 }; // distance to the nearest whole number (used by the F26 carve-out only)
     if KF_F26 {
         vs::assume(b == 0 || d > 0.0001 || (d == 0.0 && q.abs() < 9.2e18));
     }
@@ -2334,7 +2405,7 @@ harness!(divide_double_integer, 1, {
     std::mem::forget(r);
 });
 
-//# harness divide_double_integer_valid tier=quick label=complete props=C06 fn=rusty_variant/src/variant.rs::Variant::divide
+//# harness divide_double_integer_valid tier=quick label=complete props=C01,C06 fn=rusty_variant/src/variant.rs::Variant::divide
 harness!(divide_double_integer_valid, 1, {
     let a = vs::f64();
     vs::assume(a.is_finite());
@@ -2342,6 +2413,7 @@ harness!(divide_double_integer_valid, 1, {
     vs::assume(b >= -32768 && b <= 32767);
     let r = Variant::VDouble(a).divide(Variant::VInteger(b));
     c06(&r);
+    assert!(is_dz(&r) == (b == 0), "C01: Division by zero exactly when the divisor is exactly zero");
     reach!(matches!(&r, Ok(Variant::VInteger(_))));
     reach!(matches!(&r, Ok(Variant::VSingle(_)) | Ok(Variant::VDouble(_))));
     reach!(is_dz(&r));
@@ -2357,8 +2429,10 @@ harness!(divide_double_long, 1, {
     let x = a as f64;
     let y = b as f64;
     let q = if b == 0 { 0.0 } else { x / y }; // IEEE-754 quotient
-    vs::assume(q.is_finite()); // a non-finite quotient: finding F26
-    let d = (q - q.round()).abs();
+    if KF_F26 {
+        vs::assume(q.is_finite()); // a non-finite quotient: finding F26
+    }
+    let d = if q.is_finite() { (q - q.round()).abs() } else { 1.0 }; // distance to the nearest whole number (used by the F26 carve-out only)
     if KF_F26 {
         vs::assume(b == 0 || d > 0.0001 || (d == 0.0 && q.abs() < 9.2e18));
     }
@@ -2380,7 +2454,7 @@ harness!(divide_double_long, 1, {
     std::mem::forget(r);
 });
 
-//# harness divide_double_long_valid tier=quick label=complete props=C06 fn=rusty_variant/src/variant.rs::Variant::divide
+//# harness divide_double_long_valid tier=quick label=complete props=C01,C06 fn=rusty_variant/src/variant.rs::Variant::divide
 harness!(divide_double_long_valid, 1, {
     let a = vs::f64();
     vs::assume(a.is_finite());
@@ -2388,6 +2462,7 @@ harness!(divide_double_long_valid, 1, {
     vs::assume(b >= -2147483648 && b <= 2147483647);
     let r = Variant::VDouble(a).divide(Variant::VLong(b));
     c06(&r);
+    assert!(is_dz(&r) == (b == 0), "C01: Division by zero exactly when the divisor is exactly zero");
     reach!(matches!(&r, Ok(Variant::VInteger(_))));
     reach!(matches!(&r, Ok(Variant::VSingle(_)) | Ok(Variant::VDouble(_))));
     reach!(is_dz(&r));
@@ -2403,8 +2478,10 @@ harness!(divide_double_single, 1, {
     let x = a as f64;
     let y = b as f64;
     let q = if b == 0.0 { 0.0 } else { x / y }; // IEEE-754 quotient
-    vs::assume(q.is_finite()); // a non-finite quotient: finding F26
-    let d = (q - q.round()).abs();
+    if KF_F26 {
+        vs::assume(q.is_finite()); // a non-finite quotient: finding F26
+    }
+    let d = if q.is_finite() { (q - q.round()).abs() } else { 1.0 }; // distance to the nearest whole number (used by the F26 carve-out only)
     if KF_F17 {
         vs::assume(b == 0.0 || b.abs() >= 0.00001);
     }
@@ -2429,15 +2506,21 @@ harness!(divide_double_single, 1, {
     std::mem::forget(r);
 });
 
-//# harness divide_double_single_valid tier=quick label=complete props=C06 fn=rusty_variant/src/variant.rs::Variant::divide
+//# harness divide_double_single_valid tier=quick label=complete props=C01,C06 fn=rusty_variant/src/variant.rs::Variant::divide
 harness!(divide_double_single_valid, 1, {
     let a = vs::f64();
     vs::assume(a.is_finite());
     let b = vs::f32();
     vs::assume(b.is_finite());
-    vs::assume((a as f64).abs() <= 1.0e303); // |divisor| >= 1e-5 whenever a division happens, so the quotient is finite (beyond: F26)
+    if KF_F26 {
+        vs::assume((a as f64).abs() <= 1.0e303); // |divisor| >= 1e-5 whenever a division happens, so the quotient is finite (beyond: F26)
+    }
+    if KF_F17 {
+        vs::assume(b == 0.0 || b.abs() >= 0.00001);
+    }
     let r = Variant::VDouble(a).divide(Variant::VSingle(b));
     c06(&r);
+    assert!(is_dz(&r) == (b == 0.0), "C01: Division by zero exactly when the divisor is exactly zero");
     reach!(matches!(&r, Ok(Variant::VInteger(_))));
     reach!(matches!(&r, Ok(Variant::VSingle(_)) | Ok(Variant::VDouble(_))));
     reach!(is_dz(&r));
@@ -2453,8 +2536,10 @@ harness!(divide_double_double, 1, {
     let x = a as f64;
     let y = b as f64;
     let q = if b == 0.0 { 0.0 } else { x / y }; // IEEE-754 quotient
-    vs::assume(q.is_finite()); // a non-finite quotient: finding F26
-    let d = (q - q.round()).abs();
+    if KF_F26 {
+        vs::assume(q.is_finite()); // a non-finite quotient: finding F26
+    }
+    let d = if q.is_finite() { (q - q.round()).abs() } else { 1.0 }; // distance to the nearest whole number (used by the F26 carve-out only)
     if KF_F17 {
         vs::assume(b == 0.0 || b.abs() >= 0.00001);
     }
@@ -2479,22 +2564,28 @@ harness!(divide_double_double, 1, {
     std::mem::forget(r);
 });
 
-//# harness divide_double_double_valid tier=quick label=complete props=C06 fn=rusty_variant/src/variant.rs::Variant::divide
+//# harness divide_double_double_valid tier=quick label=complete props=C01,C06 fn=rusty_variant/src/variant.rs::Variant::divide
 harness!(divide_double_double_valid, 1, {
     let a = vs::f64();
     vs::assume(a.is_finite());
     let b = vs::f64();
     vs::assume(b.is_finite());
-    vs::assume((a as f64).abs() <= 1.0e303); // |divisor| >= 1e-5 whenever a division happens, so the quotient is finite (beyond: F26)
+    if KF_F26 {
+        vs::assume((a as f64).abs() <= 1.0e303); // |divisor| >= 1e-5 whenever a division happens, so the quotient is finite (beyond: F26)
+    }
+    if KF_F17 {
+        vs::assume(b == 0.0 || b.abs() >= 0.00001);
+    }
     let r = Variant::VDouble(a).divide(Variant::VDouble(b));
     c06(&r);
+    assert!(is_dz(&r) == (b == 0.0), "C01: Division by zero exactly when the divisor is exactly zero");
     reach!(matches!(&r, Ok(Variant::VInteger(_))));
     reach!(matches!(&r, Ok(Variant::VSingle(_)) | Ok(Variant::VDouble(_))));
     reach!(is_dz(&r));
     std::mem::forget(r);
 });
 
-//# harness finding_f26_divide_integer_integer tier=quick label=complete props=C01 fn=rusty_variant/src/variant.rs::Variant::divide expect=finding:F26
+//# harness finding_f26_divide_integer_integer tier=quick label=complete props=C01 fn=rusty_variant/src/variant.rs::Variant::divide expect=finding:F26 standalone=1 timeout=1500
 harness!(finding_f26_divide_integer_integer, 1, {
     let a = vs::i32();
     vs::assume(a >= -32768 && a <= 32767);
@@ -2503,8 +2594,10 @@ harness!(finding_f26_divide_integer_integer, 1, {
     let x = a as f32;
     let y = b as f32;
     let q = if b == 0 { 0.0 } else { x / y }; // IEEE-754 quotient
-    vs::assume(q.is_finite()); // a non-finite quotient: finding F26
-    let d = (q - q.round()).abs();
+    if KF_F26 {
+        vs::assume(q.is_finite()); // a non-finite quotient: finding F26
+    }
+    let d = if q.is_finite() { (q - q.round()).abs() } else { 1.0 }; // distance to the nearest whole number (used by the F26 carve-out only)
     vs::assume(!(b == 0) && !(d > 0.0001 || (d == 0.0 && q.abs() < 9.2e18)));
     let r = Variant::VInteger(a).divide(Variant::VInteger(b));
     if b == 0 {
@@ -2520,7 +2613,7 @@ harness!(finding_f26_divide_integer_integer, 1, {
     std::mem::forget(r);
 });
 
-//# harness finding_f26_divide_single_single tier=quick label=complete props=C01 fn=rusty_variant/src/variant.rs::Variant::divide expect=finding:F26
+//# harness finding_f26_divide_single_single tier=quick label=complete props=C01 fn=rusty_variant/src/variant.rs::Variant::divide expect=finding:F26 standalone=1 timeout=1500
 harness!(finding_f26_divide_single_single, 1, {
     let a = vs::f32();
     vs::assume(a.is_finite());
@@ -2529,8 +2622,10 @@ harness!(finding_f26_divide_single_single, 1, {
     let x = a as f32;
     let y = b as f32;
     let q = if b == 0.0 { 0.0 } else { x / y }; // IEEE-754 quotient
-    vs::assume(q.is_finite()); // a non-finite quotient: finding F26
-    let d = (q - q.round()).abs();
+    if KF_F26 {
+        vs::assume(q.is_finite()); // a non-finite quotient: finding F26
+    }
+    let d = if q.is_finite() { (q - q.round()).abs() } else { 1.0 }; // distance to the nearest whole number (used by the F26 carve-out only)
     vs::assume(a == 1.0e27 && b == 1.0); // X! = 1E27 : PRINT X! / 1  (whole quotient >= 2^63 saturates)
     vs::assume(!(b == 0.0) && !(d > 0.0001 || (d == 0.0 && q.abs() < 9.2e18)));
     vs::assume(b == 0.0 || b.abs() >= 0.00001);
@@ -2548,7 +2643,7 @@ harness!(finding_f26_divide_single_single, 1, {
     std::mem::forget(r);
 });
 
-//# harness finding_f26_divide_double_double tier=quick label=complete props=C01 fn=rusty_variant/src/variant.rs::Variant::divide expect=finding:F26
+//# harness finding_f26_divide_double_double tier=quick label=complete props=C01 fn=rusty_variant/src/variant.rs::Variant::divide expect=finding:F26 standalone=1 timeout=1500
 harness!(finding_f26_divide_double_double, 1, {
     let a = vs::f64();
     vs::assume(a.is_finite());
@@ -2557,8 +2652,10 @@ harness!(finding_f26_divide_double_double, 1, {
     let x = a as f64;
     let y = b as f64;
     let q = if b == 0.0 { 0.0 } else { x / y }; // IEEE-754 quotient
-    vs::assume(q.is_finite()); // a non-finite quotient: finding F26
-    let d = (q - q.round()).abs();
+    if KF_F26 {
+        vs::assume(q.is_finite()); // a non-finite quotient: finding F26
+    }
+    let d = if q.is_finite() { (q - q.round()).abs() } else { 1.0 }; // distance to the nearest whole number (used by the F26 carve-out only)
     vs::assume(a == 1.0 && b == 20000.0); // PRINT 1# / 20000#  (quotient within 1e-4 of a whole number is snapped)
     vs::assume(!(b == 0.0) && !(d > 0.0001 || (d == 0.0 && q.abs() < 9.2e18)));
     vs::assume(b == 0.0 || b.abs() >= 0.00001);
@@ -2585,8 +2682,10 @@ harness!(finding_f17_divide_integer_single, 1, {
     let x = a as f32;
     let y = b as f32;
     let q = if b == 0.0 { 0.0 } else { x / y }; // IEEE-754 quotient
-    vs::assume(q.is_finite()); // a non-finite quotient: finding F26
-    let d = (q - q.round()).abs();
+    if KF_F26 {
+        vs::assume(q.is_finite()); // a non-finite quotient: finding F26
+    }
+    let d = if q.is_finite() { (q - q.round()).abs() } else { 1.0 }; // distance to the nearest whole number (used by the F26 carve-out only)
     vs::assume(!(b == 0.0 || b.abs() >= 0.00001));
     let r = Variant::VInteger(a).divide(Variant::VSingle(b));
     if b == 0.0 {
@@ -2611,8 +2710,10 @@ harness!(finding_f17_divide_double_double, 1, {
     let x = a as f64;
     let y = b as f64;
     let q = if b == 0.0 { 0.0 } else { x / y }; // IEEE-754 quotient
-    vs::assume(q.is_finite()); // a non-finite quotient: finding F26
-    let d = (q - q.round()).abs();
+    if KF_F26 {
+        vs::assume(q.is_finite()); // a non-finite quotient: finding F26
+    }
+    let d = if q.is_finite() { (q - q.round()).abs() } else { 1.0 }; // distance to the nearest whole number (used by the F26 carve-out only)
     vs::assume(!(b == 0.0 || b.abs() >= 0.00001));
     let r = Variant::VDouble(a).divide(Variant::VDouble(b));
     if b == 0.0 {
@@ -2628,7 +2729,7 @@ harness!(finding_f17_divide_double_double, 1, {
     std::mem::forget(r);
 });
 
-//# harness finding_f19_divide_long_integer tier=quick label=complete props=C01 fn=rusty_variant/src/variant.rs::Variant::divide expect=finding:F19
+//# harness finding_f19_divide_long_integer tier=quick label=complete props=C01 fn=rusty_variant/src/variant.rs::Variant::divide expect=finding:F19 standalone=1
 harness!(finding_f19_divide_long_integer, 1, {
     let a = vs::i64();
     vs::assume(a >= -2147483648 && a <= 2147483647);
@@ -2640,7 +2741,7 @@ harness!(finding_f19_divide_long_integer, 1, {
     std::mem::forget(r);
 });
 
-//# harness finding_f19_divide_long_long tier=quick label=complete props=C01 fn=rusty_variant/src/variant.rs::Variant::divide expect=finding:F19
+//# harness finding_f19_divide_long_long tier=quick label=complete props=C01 fn=rusty_variant/src/variant.rs::Variant::divide expect=finding:F19 standalone=1
 harness!(finding_f19_divide_long_long, 1, {
     let a = vs::i64();
     vs::assume(a >= -2147483648 && a <= 2147483647);
